@@ -517,6 +517,13 @@ fn spec(case: &Case, ok: bool, pre: &BTreeMap<String, Node>, post: &BTreeMap<Str
                 }
             }
         }
+        // after a SUCCESSFUL call the two markers are the client's own, whatever an archive carried under these names
+        // (a regular file: a LINK planted under a marker's name stays a link, the client writing through it — that is the
+        // known foreign-entry finding)
+        if ok && matches!(node, Node::File(_)) && (p == "db/clean" || (p == "db/protocolMagicId" && magic_of(&case.network).is_some())) {
+            fails.push(("bootstrap-marker".to_string(), format!("{} is {:?} after a successful call: not the marker the client writes", p, node)));
+            continue;
+        }
         let rel = p.strip_prefix("db/").map(|s| s.to_string());
         // (b) immutable trio files of the requested range
         if let (Some(rel), Some((lo, hi)), Node::File(_)) = (&rel, bounds, node) {
